@@ -446,7 +446,7 @@ func ruleC01_2(c *Ctx) {
 		}
 		nret++
 		name := fmt.Sprintf("OnCReact: return #%d (%s)", nret, returnLabel(r))
-		if isNilConst(r.Results[0]) {
+		if isNilConst(results(r)[0]) {
 			// forwarded: every path to this return passes the enqueue
 			if !dominatesInstr(call, r) {
 				c.bad(name, c.at(r), "this return yields no local reply (out == nil) but can be reached without EnqueueInMsg: the backend's reply finds an empty client queue and the client is closed / the reply dropped")
@@ -467,7 +467,7 @@ func returnLabel(r *ssa.Return) string {
 	if len(r.Results) == 0 {
 		return "void"
 	}
-	v := r.Results[0]
+	v := results(r)[0]
 	if isNilConst(v) {
 		return "nil"
 	}
